@@ -8,3 +8,8 @@ Definition k18_cycle (size : Z) (days : list Z) (vals out : list Q) (udays : lis
   close_list (annual_cycle size days vals) out tol && CorrBase.zlist_eqb (NP.unique days) udays.
 Definition k18_opt (r : option (list Q)) (out : list Q) (tol : Q) : bool :=
   match r with Some l => close_list l out tol | None => false end.
+
+(** K21 (ISIMIP step 3): detrended series and trend *)
+From IV Require Import IsimipStep3.
+Definition k21 (sig : bool) (years : list Z) (x out trend : list Q) (tol : Q) : bool :=
+  close_list (step3_remove sig years x) out tol && close_list (step3_trend sig years x) trend tol.
